@@ -18,6 +18,8 @@ TRUSTED_BASE = [
     "tools/extract.py (Python-source -> Lean translator for the generated definitions)",
     "the correspondence harness (tools/*.py): canonicalisation, recording proxies, s-expression bridge",
     "modelled, not verified: CPython semantics of the transcribed constructs; clingo parser/grounder/solver/backend/atom table",
+    "clasp is run with --eq=0 by the in-process harness: its equivalence preprocessing misbehaves in multi-shot solving (DESIGN 11.8, 11.13)",
+    "the search oracle `telspec tsm` is proved to decide the specification (enumerator_is_spec / enumerator_complete); `telspec ltl/ldl` evaluate the specification's definitions directly",
 ]
 
 class Lock:
